@@ -377,6 +377,23 @@ def loopStepC (env : Env) (c : Carried) (s : State E) : State E :=
              writes := s.writes + cp env + 1 }
   else { s with pending := false, writes := s.writes + cp env }
 
+/-! ### C07's consistency wait, as far as this loop is concerned -/
+
+/-- One turn on an event that is NOT the echo the worker awaits: it still awaits the version of the framework's own
+    last PATCH, the consistency deadline `dl` lies ahead. Whether the barrier is up is C07's subject and not modelled
+    (`loopStep` has `consistent = true`); here only what such a turn does to the loop. A turn dedicated to the
+    finalizer, or on an object the framework is blind to, requires no consistency. Otherwise, with no patch
+    accumulated before the state-dependent part (`nonEmpty = false`) the processor sleeps till the deadline, assumes
+    the consistency and goes on: `loopStep` at the deadline. With a patch accumulated (`nonEmpty = true`: an on.event
+    handler's result or its transformation functions) it neither sleeps nor runs the handlers ("exit to PATCHing": the
+    patch is expected to bring the next event) — but in this loop the patches of that kind change nothing
+    (`constPatch`: one request without effect; functions without operations: no request): NO EVENT FOLLOWS, and the
+    worker exits at the deadline. -/
+def loopStepI (env : Env) (nonEmpty : Bool) (dl : Tick) (s : State E) : State E :=
+  if !s.pending || s.gone || adjusting env s || !env.prematch then loopStep env s
+  else if nonEmpty then { s with pending := false, writes := s.writes + cp env }
+  else loopStep env { s with now := if s.now < dl then dl else s.now }
+
 /-! ### instances shared by the witnesses in Props and the driver -/
 
 def okOutcome : C02.Outcome := { final := true, delay := none, error := false, subrefs := [] }
